@@ -1,0 +1,14 @@
+//go:build verif
+
+package listener
+
+import (
+	"github.com/mlange-42/arche/ecs"
+	"github.com/mlange-42/arche/ecs/event"
+)
+
+// VerifSubscribes exposes the unexported subscribes function of this package.
+// This file exists only with build tag "verif" and changes no behaviour.
+func VerifSubscribes(trigger event.Subscription, added *ecs.Mask, removed *ecs.Mask, subs *ecs.Mask, oldRel *ecs.ID, newRel *ecs.ID) bool {
+	return subscribes(trigger, added, removed, subs, oldRel, newRel)
+}
